@@ -66,3 +66,17 @@ Definition trav_case (c : netlist) (origins : list nat) (exp : trav_data) : bool
   let '(t, lv, lo, rt, fi) := exp in
   list_eqb Nat.eqb (topo_order c) t && list_eqb (pair_eqb Nat.eqb Nat.eqb) (topo_levels c) lv &&
   list_eqb Nat.eqb (topo_line_order c) lo && list_eqb Nat.eqb (rtopo_order c) rt && list_eqb Nat.eqb (fanin c origins) fi.
+
+(** prefix lookup results *)
+From KV Require Import Model.Locs.
+Fixpoint res_eqb (fuel : nat) (a b : res) : bool :=
+  match fuel with
+  | O => false
+  | S f => match a, b with
+           | RLeaf x, RLeaf y => Nat.eqb x y
+           | RList l1, RList l2 => list_eqb (res_eqb f) l1 l2
+           | _, _ => false
+           end
+  end.
+Definition locs_case (prefix : String.string) (names : list String.string) (exp : option (option res)) : bool :=
+  opt_eqb (opt_eqb (res_eqb 8)) (locs prefix names) exp.
